@@ -168,22 +168,24 @@ Verdict(D) ==
 \* Part 4: bounded grammar.  GVd[n] = values of container depth <= d (d <= 3) with exactly n nodes,
 \* at most 2 members per container, object keys in the order of Keys.
 KeyPairs == {p \in (1..Len(Keys)) \X (1..Len(Keys)) : p[1] < p[2]}
-\* one more level of containers over the values P[n] (n = node count) of the level below
+\* one more level of containers over the values P[n] (n = node count) of the level below.
+\* (No UNION over the big sets: TLC builds UNION with a quadratic membership scan.)
+TwoOf(P, a, n) == IF a < 1 \/ a > n - 2 THEN {}
+                  ELSE {List(<<v, w>>) : v \in P[a], w \in P[n - 1 - a]}
+                       \cup {Obj(<< <<Keys[p[1]], v>>, <<Keys[p[2]], w>> >>) :
+                                p \in KeyPairs, v \in P[a], w \in P[n - 1 - a]}
 Grow(P) == [n \in 1..MaxNodes |->
               (IF n = 1 THEN GScalars \cup {List(<<>>), Obj(<<>>)} ELSE {})
               \cup (IF n < 2 THEN {} ELSE
                       {List(<<v>>) : v \in P[n - 1]}
                       \cup {Obj(<< <<Keys[k], v>> >>) : k \in 1..Len(Keys), v \in P[n - 1]})
-              \cup UNION {{List(<<v, w>>) : v \in P[a], w \in P[n - 1 - a]}
-                          \cup {Obj(<< <<Keys[p[1]], v>>, <<Keys[p[2]], w>> >>) :
-                                   p \in KeyPairs, v \in P[a], w \in P[n - 1 - a]}
-                          : a \in 1..(n - 2)}]
+              \cup TwoOf(P, 1, n) \cup TwoOf(P, 2, n) \cup TwoOf(P, 3, n) \cup TwoOf(P, 4, n)]
 GV0 == [n \in 1..MaxNodes |-> IF n = 1 THEN GScalars ELSE {}]
 GV1 == Grow(GV0)
 GV2 == Grow(GV1)
 GV3 == Grow(GV2)
 GVTop == IF MaxDepth = 0 THEN GV0 ELSE IF MaxDepth = 1 THEN GV1 ELSE IF MaxDepth = 2 THEN GV2 ELSE GV3
-GDocs == UNION {GVTop[n] : n \in 1..MaxNodes}
+ASSUME MaxDepth \in 0..3 /\ MaxNodes \in 1..6
 
 -----------------------------------------------------------------------------
 \* Part 5: fault injection
@@ -251,7 +253,7 @@ InjRefNested == CanInject /\ \E i \in Cols(doc) : \E j \in Sites(doc, i) : \E k 
                    /\ Do("refNotNested", SetSite(doc, i, j, [SiteStr(doc, i, j) EXCEPT !.r = Name(doc, k)]))
 
 CleanBase(D) == WellTyped(D) /\ Broken(D) = {}
-Init == IF Mode = "grammar" THEN doc \in GDocs /\ faults = <<>>
+Init == IF Mode = "grammar" THEN (\E n \in 1..MaxNodes : doc \in GVTop[n]) /\ faults = <<>>
         ELSE doc \in {D \in Bases : CleanBase(D)} /\ faults = <<>>
 Next == \/ InjHedType \/ InjValueHash \/ InjCatHash \/ InjHedColumn \/ InjNaKey
         \/ InjBrace \/ InjRefUnknown \/ InjRefSelf \/ InjRefNested
